@@ -246,6 +246,21 @@ func runC21(p *core.Program, r *core.Report) {
 				return
 			}
 			found = true
+			// RUN-ALL: no return bypasses the loop
+			if hdr := loopHeaderOf(ia.Index); hdr != nil {
+				bypass := false
+				var where ssa.Instruction
+				core.Instrs(fn, func(x ssa.Instruction) {
+					if _, isRet := x.(*ssa.Return); isRet && !hdr.Dominates(x.Block()) {
+						bypass, where = true, x
+					}
+				})
+				if bypass {
+					r.Bad("DEFERS-RUN", label+" runs every registered function on every path", p.InsPos(where), "a path returns before the loop over the registered restore/deferred functions: on that path (e.g. when evaluation was interrupted) tmp restores and deferred callbacks are skipped")
+				} else {
+					r.OK("DEFERS-RUN", label+" runs every registered function on every path", p.InsPos(ins), "every return is dominated by the loop over the registered functions")
+				}
+			}
 			if descendingIndex(ia.Index, map[ssa.Value]bool{}) {
 				r.OK("REVERSE", label+" runs registered functions last-to-first", p.InsPos(ins), "the index starts at len-1 and decreases")
 			} else {
@@ -378,4 +393,19 @@ func runC21(p *core.Program, r *core.Report) {
 func reachesIns(from, to ssa.Instruction) bool {
 	ok, _ := core.Reaches(from, func(x ssa.Instruction) bool { return x == to }, nil)
 	return ok
+}
+
+// loopHeaderOf returns the block of the loop counter phi an index is derived from.
+func loopHeaderOf(idx ssa.Value) *ssa.BasicBlock {
+	for i := 0; i < 4; i++ {
+		switch x := idx.(type) {
+		case *ssa.Phi:
+			return x.Block()
+		case *ssa.BinOp:
+			idx = x.X
+		default:
+			return nil
+		}
+	}
+	return nil
 }
